@@ -13,7 +13,46 @@ def _c05(tier, seed):
              validate_runs=["H_C05_ige(2)", "H_C05_lengths(48)", "H_C05_encrypt(1,40)"], solver="z3"),
     ]
 
+def _c03(tier, seed):
+    q = tier == "quick"
+    L = 40 if q else 96
+    step = 8
+    runs = []
+    for lo in range(0, L + 1, step):
+        hi = min(L, lo + step - 1)
+        runs.append("H_C03_serialize(%d,%d)" % (lo, hi))
+        runs.append("H_C03_open(%d,%d)" % (lo, hi))
+    runs.append("H_C03_unencrypted(%d)" % (40 if q else 96))
+    return [dict(name="envelope", pkg="internal/mtproto/messages", harness=["harness/messages/ref.go", "harness/messages/c03.go"],
+                 runs=runs, validate_runs=["H_C03_serialize(0,40)", "H_C03_open(0,40)", "H_C03_unencrypted(40)"], solver="z3")]
+
+def _c04(tier, seed):
+    q = tier == "quick"
+    nb = [2, 3, 4] if q else [2, 3, 4, 5, 6]
+    bodies = [0, 4, 12, 16, 20] if q else [0, 1, 4, 8, 12, 15, 16, 17, 20, 32, 40]
+    runs = ["H_C04_short(39)", "H_C04_unencrypted(%d)" % (40 if q else 64)]
+    runs += ["H_C04_keyholder(%d)" % b for b in nb]
+    runs += ["H_C04_tamper(%d,%d)" % (n, k) for n in bodies for k in range(4)]
+    return [dict(name="forged", pkg="internal/mtproto/messages", harness=["harness/messages/ref.go", "harness/messages/c04.go"],
+                 runs=runs, validate_runs=["H_C04_short(39)", "H_C04_unencrypted(40)", "H_C04_keyholder(3)", "H_C04_tamper(12,1)", "H_C04_tamper(12,2)"],
+                 solver="cvc5", covers={"H_C04_keyholder": ["keyholder-accepted"], "H_C04_unencrypted": ["unenc-accepted"]})]
+
 PROPS = {
+    "C04": dict(
+        jobs=_c04,
+        bounds={"quick": "short packets: every length 0..39; key-holder forgeries: inner plaintext of 2..4 blocks with every bit (incl. the declared int32 length) symbolic; tampering: honest packets with bodies {0,4,12,16,20}, every single-bit flip position of key id / ciphertext, every truncation length, any other key; unencrypted parser: all inputs of length 0..40",
+                "thorough": "key-holder 2..6 blocks; tamper bodies {0,1,4,8,12,15,16,17,20,32,40}; unencrypted 0..64"},
+        outside="longer packets; flips inside msg_key (acceptance there is a SHA-1 preimage event that the uninterpreted-function model cannot exclude); SHA-1/AES internals",
+        assumptions=["SHA-1 uninterpreted per input length, AES uninterpreted permutation pair", "tamper harness: SHA-1 (and its 4..19 / 12..19 / 0..7 byte truncations) collision-free on the hash applications of the path (AssumeCollisionFree)"],
+    ),
+    "C03": dict(
+        jobs=_c03,
+        bounds={"quick": "bodies 0..40 bytes (every residue mod 16), all key/salt/session/msg_id/seq_no/ack/body/padding bits symbolic",
+                "thorough": "bodies 0..96 bytes"},
+        outside="bodies longer than the bound (IGE/SHA loops need concrete structure); SHA-1/AES internals",
+        assumptions=["SHA-1 uninterpreted per input length, AES uninterpreted permutation pair (ground inverse axioms)",
+                     "reference envelope (harness/messages/ref.go) written from the MTProto 1.0 description"],
+    ),
     "C05": dict(
         jobs=_c05,
         bounds={"quick": "IGE block counts {1,2,3,4,8}; all lengths 0..48 for the refusal rule; Encrypt payloads 1..40; all key/IV/data bits symbolic",
